@@ -234,9 +234,22 @@ int URI_FUNC(ComposeQueryEngine)(URI_CHAR * dest,
 		valueRequiredChars = worstCase * (int)valueLen;
 
 		if (dest == NULL) {
-			(*charsRequired) += ampersandLen + keyRequiredChars + ((value == NULL)
-						? 0
-						: 1 + valueRequiredChars);
+			/* Sum up with protection against integer overflow */
+			int itemRequiredChars = ampersandLen;
+			if (keyRequiredChars > INT_MAX - itemRequiredChars) {
+				return URI_ERROR_OUTPUT_TOO_LARGE;
+			}
+			itemRequiredChars += keyRequiredChars;
+			if (value != NULL) {
+				if (valueRequiredChars > INT_MAX - itemRequiredChars - 1) {
+					return URI_ERROR_OUTPUT_TOO_LARGE;
+				}
+				itemRequiredChars += 1 + valueRequiredChars;
+			}
+			if (itemRequiredChars > INT_MAX - (*charsRequired)) {
+				return URI_ERROR_OUTPUT_TOO_LARGE;
+			}
+			(*charsRequired) += itemRequiredChars;
 
 			if (firstItem == URI_TRUE) {
 				ampersandLen = 1;
